@@ -24,7 +24,14 @@ def extract(tree):
     tail = _func(src, "janet_fiber_funcframe_tail")
     ws = lambda t: re.sub(r"\s+", "", t)
     c, t = ws(call), ws(tail)
+    ms = re.search(r"static\s+Janet\s+make_struct_n\s*\(", src)
+    if not ms:
+        raise ExtractError("make_struct_n not found in fiber.c")
+    j = src.index("{", ms.end())
+    mk = ws(src[j:csrc.match_brace(src, j)])
     flags = {
+        # keyword arguments are packed from complete key-value pairs only (never reads args[n])
+        "structPairsBounded": "for(;i+1<n;i+=2){janet_struct_put(st,args[i],args[i+1]);}" in mk,
         "callArityChecks": "if(next_arity<func->def->min_arity)return1;" in c and "if(next_arity>func->def->max_arity)return1;" in c,
         "callNilFill": "for(i=fiber->stacktop;i<nextstacktop;++i){fiber->data[i]=janet_wrap_nil();}" in c,
         "tailArityChecks": "if(next_arity<func->def->min_arity)return1;" in t and "if(next_arity>func->def->max_arity)return1;" in t,
